@@ -371,7 +371,7 @@ def exists(*args):
     return any(lam(*vals) for vals in _it.product(*[_domain(t) for t in tys]))
 
 
-def member(coll, y, *hints):
+def member(coll, y, *hints, inner=None):
     return y in coll
 
 
@@ -451,3 +451,107 @@ def del_index(s, v):
 
 def common_del(a, b, k):
     return None
+
+
+# ---- search results
+
+class _Cells:
+    """triplet view of a matrix result: iterating yields (q, r, d) for the stored non-zero cells"""
+
+    def __init__(self, m):
+        import numpy as np
+        d = _dense(m)
+        self.d = d
+        self.items = [(int(q), int(r), d[r, q]) for r in range(d.shape[0]) for q in range(d.shape[1]) if d[r, q] != 0]
+
+    def __iter__(self):
+        return iter(self.items)
+
+    def __contains__(self, t):
+        q, r, v = t
+        return 0 <= r < self.d.shape[0] and 0 <= q < self.d.shape[1] and close(self.d[r, q], v)
+
+
+def triplets_of(result):
+    if isinstance(result, list):
+        return [tuple(t) for t in result]
+    return _Cells(result)
+
+
+def output_kind(result):
+    import scipy.sparse as sp
+    if isinstance(result, list):
+        return "triplets"
+    return "coo_matrix" if sp.issparse(result) else "ndarray"
+
+
+def output_shape(result):
+    return None if isinstance(result, list) else tuple(_dense(result).shape)
+
+
+def is_setlike(x):
+    return True
+
+
+def functional_on(coll, key):
+    seen = {}
+    for e in coll:
+        k = key(e)
+        if k in seen and seen[k] != e:
+            return False
+        seen[k] = e
+    return True
+
+
+def local(name):
+    return None
+
+
+def vd_pos(db, v, p):
+    return None
+
+
+def common_del_h(a, b, k):
+    return None
+
+
+def neighbor_triplets(Q, R, pred, val, distinct=False):
+    return [(q, r, val(a, b)) for q, a in enumerate(Q) for r, b in enumerate(R) if pred(a, b) and not (distinct and q == r)]
+
+
+def search_output(trip, output_type, seqs, seqs2):
+    return list(trip) if output_type == "triplets" else ("matrix", list(trip))
+
+
+def bag_equal(a, b):
+    la, lb = list(a), list(b)
+    return all(any(x[:2] == y[:2] and close(x[2], y[2]) for y in lb) for x in la) and \
+        all(any(x[:2] == y[:2] and close(x[2], y[2]) for y in la) for x in lb)
+
+
+def valid_search_args(seqs, max_edits, max_returns, n_cpu, cd, mcd, output_type, seqs2):
+    import numpy as np
+
+    def strs(x):
+        try:
+            return all(type(s) in (str, np.str_) for s in x)
+        except TypeError:
+            return False
+    ok = len(seqs) > 0 and strs(seqs)
+    ok = ok and type(max_edits) in (int, Fraction) and max_edits > 0 and not isinstance(max_edits, bool)
+    ok = ok and (max_returns is None or (type(max_returns) in (int, Fraction) and max_returns > 0))
+    ok = ok and type(n_cpu) in (int, Fraction) and n_cpu > 0
+    if ok and cd is not None and not (isinstance(cd, str) and cd == "hamming"):
+        try:
+            first = next(iter(seqs))
+            ok = callable(cd) and cd(first, first) == 0
+        except Exception:
+            ok = False
+    ok = ok and type(mcd) in (int, float, Fraction) and mcd >= 0
+    ok = ok and isinstance(output_type, str) and output_type in ("coo_matrix", "triplets", "ndarray")
+    ok = ok and (seqs2 is None or strs(seqs2))
+    return ok
+
+
+def with_witness(*args):
+    return args[-1]
